@@ -178,12 +178,31 @@ CHECKS["C17"] = dict(
          "bind mounts (1 quick / <= 2 thorough) next to a reduced option set, 0..2 buildpack references of either kind. The produced argv is "
          "parsed back on the same path by reference parsers of docker's and pack's option grammars (spec/cli.py, incl. Go encoding/csv for "
          "--mount) and the solver decides that the parse equals the configuration (each pair/port/mount once, buildpacks in order, values "
-         "only in value positions). The mapping BuildConfig/ContainerConfig -> command structs (TestRunner::build_internal, "
-         "TestContext::start_container), the app-dir copy and the preprocessor are NOT covered by this check.",
+         "only in value positions). Build half: TestRunner::{build, build_internal}, TestContext::rebuild, app::copy_app and util::run_command "
+         "are executed from MIR for a BuildConfig with a symbolic builder, two symbolic `Other` buildpack ids (possibly equal), 0..1 env pair, "
+         "with/without app preprocessor and both expected pack results: exactly one pack build per configuration carrying builder, buildpacks "
+         "in order and env pairs once, --path = the fixture or the private temp copy the preprocessor saw, fixture untouched. The mapping "
+         "ContainerConfig -> DockerRunCommand in start_container is covered only for the default container configuration (via C16).",
     design_ref="DESIGN.md §5 C17",
     technique="symbolic execution of rustc MIR (mirsym) with SMT strings + z3; oracle = symbolic reference parser of the docker/pack command-line grammar; witness replay against the real From impls",
     note="Assumed: env names non-empty without '=', no NUL, no CR in mount paths, generated container/image names. The command structs are "
          "pub(crate): the replay driver compiles /repo's docker.rs and pack.rs via #[path]. " + BASE_NOTE)
+
+CHECKS["C16"] = dict(
+    text="Bounded model checking from MIR of TestRunner::{build, build_internal}, TestContext::{start_container, run_shell_command, "
+         "download_sbom_files, rebuild, determine_container_platform}, ContainerContext::{logs_now, logs_wait, address_for_port, shell_exec}, "
+         "Drop for ContainerContext and TemporaryDockerResources (incl. unwinding and drop glue), util::run_command, app::copy_app and all "
+         "From<..Command> for Command impls. The test closures are scenario programs chosen step by step: <= 3 (quick) / <= 4 (thorough) "
+         "steps from {start_container(nested program), run_shell_command, download_sbom_files(closure returns|panics), rebuild(nested "
+         "program), panic, return} and container steps {logs_now, logs_wait, address_for_port(exposed|unexposed), shell_exec, panic, return}; "
+         "the exit code of every external command is a solver variable with at most 1 (quick) / 2 (thorough) non-zero; a panic is injectable "
+         "at every step; three (quick) / eight (thorough) build configurations. When a scenario ends (return, panic or abort) the recorded "
+         "command list and the file-system model must show: every detached container force-removed after its start; image and both cache "
+         "volumes force-removed exactly once after their last use; nothing else removed; no temp dir left; fixture untouched.",
+    design_ref="DESIGN.md §5 C16",
+    technique="symbolic execution of rustc MIR (mirsym) incl. unwinding/Drop with symbolic exit codes + z3; scenario programs as branch points; witness replay in a child process with stand-in docker/pack executables on PATH",
+    note="Closures are harness programs that drop what they own at their end and while unwinding (rustc's drop glue); tempfile/fs_extra/"
+         "fastrand are stubs by contract; commands that cannot be spawned and buildpack packaging (cargo) are outside. " + BASE_NOTE)
 
 NOT_YET = "check not built yet in this round (see DESIGN.md §9 build order); no claim is made"
 NOT_APPLICABLE = {}
